@@ -458,6 +458,25 @@ class Gen:
                 elif c == 7: self.delete_some()
                 elif c == 8: self.set_something()
                 else: self.do("Clear %d" % r.below(2))
+        elif p == "toggles":
+            # incidence kinds switched off and on again while deletions are pending / after renumbering (C12, C01)
+            self.mode(deferred=1 if r.chance(2, 3) else 0)
+            if r.chance(1, 2): self.create_props(2)
+            self.build(); self.fill_props()
+            for _ in range(nops):
+                c = r.below(20)
+                if c < 8:
+                    k = r.pick(["EnVBU", "EnEBU", "EnFBU"])
+                    self.do("%s 0" % k)
+                    for _ in range(r.below(3)): self.delete_some("EFCV" if r.chance(3, 4) else "V")
+                    if r.chance(1, 3): self.swap_some()
+                    self.do("%s 1" % k)
+                elif c < 13: self.delete_some("EEFFCV")
+                elif c < 15: self.swap_some()
+                elif c == 15: self.do("GC")
+                elif c == 16: self.build()
+                elif c == 17: self.do("EnDef %d" % r.below(2))
+                else: self.toggle()
         elif p == "swaps":
             self.mode()
             self.create_props(3)
